@@ -33,10 +33,10 @@ func (pass *RetypeField) processObject(_ *Visitor, _ *ast.Schema, object ast.Obj
 		}
 
 		object.Type.Struct.Fields[i].AddToPassesTrail(fmt.Sprintf("RetypeField[%s → %s]", ast.TypeName(field.Type), ast.TypeName(pass.As)))
-		object.Type.Struct.Fields[i].Type = pass.As
+		object.Type.Struct.Fields[i].Type = pass.As.DeepCopy()
 
 		if pass.Comments != nil {
-			object.Type.Struct.Fields[i].Comments = pass.Comments
+			object.Type.Struct.Fields[i].Comments = append([]string(nil), pass.Comments...)
 		}
 
 		break
